@@ -585,8 +585,17 @@ fn check_case(c: &Case, state: Option<&EncryptionState>, formats: &[bool]) -> Fa
         Some(s) => s,
         None => match catch(|| make_state(h, &orig, c.user, c.owner)) {
             Err(p) => { push(&mut f, "no-panic", format!("EncryptionState::try_from panicked: {}", p)); return f; }
-            Ok(Err(e)) => { push(&mut f, "state-ok", format!("EncryptionState::try_from failed for a supported configuration: {}", e)); return f; }
-            Ok(Ok(s)) => { own = s; &own }
+            Ok(Err(e)) => {
+                // Revisions 2-4 take the password in PDFDocEncoding: a password with a character that encoding cannot represent
+                // cannot be used with them at all.  Refusing it (rather than silently dropping the characters, library fix fce3339)
+                // is the expected outcome; the round-trip clauses are then vacuous for this case.
+                if h.legacy() && (has_nonlatin(c.user) || has_nonlatin(c.owner)) { return f; }
+                push(&mut f, "state-ok", format!("EncryptionState::try_from failed for a supported configuration: {}", e)); return f;
+            }
+            Ok(Ok(s)) => {
+                if h.legacy() && (has_nonlatin(c.user) || has_nonlatin(c.owner)) { push(&mut f, "unrepresentable-password-refused", format!("a revision 2-4 handler accepted the password pair ({:?}, {:?}), which PDFDocEncoding cannot represent", short(c.user), short(c.owner))); return f; }
+                own = s; &own
+            }
         },
     };
     // 2. encrypt
